@@ -4,7 +4,7 @@ from __future__ import annotations
 import random
 
 from .. import gen, model, sem
-from ..snapshot import CLASS_NAMES, REACTION, STEREO, build, classes, pg_from_json, pg_to_json, raw_views, snap, views_equal
+from ..snapshot import CLASS_NAMES, DerivationWrong, REACTION, STEREO, build, build_case, classes, pg_from_json, pg_to_json, raw_views, snap, views_equal
 
 LEVEL = "exploration"
 RULE = (
@@ -224,7 +224,13 @@ def check_case(ctx, case):
     ctx.count(f"derivation:{d}")
     for side in ("derived", "source"):
         rng = random.Random(case["eseed"])
-        g, other = build(pg), build(other_pg)
+        try:  # the source itself comes from a seed-chosen provenance (direct build, subgraph, compose, relabel, removals, copies, JSON)
+            g, via = build_case(pg, case["eseed"])
+        except DerivationWrong as e:
+            ctx.violate(f"C10/derived-input-differs/{cls}/{e.via}", f"deriving the source graph: {e}", case)
+            return
+        other = build(other_pg)
+        ctx.count(f"via:{via}")
         try:
             der = derive(g, d, rng, other)
         except Exception as e:  # noqa: BLE001
